@@ -2,6 +2,7 @@ import NmVerif.Lemmas.Tile
 import NmVerif.Lemmas.Pad
 import NmVerif.Lemmas.Take
 import NmVerif.Lemmas.Repeat
+import NmVerif.Lemmas.Concatenate
 /-
   C04 — selecting / replicating / joining / generating views equal their reference result.
   Only the property theorems live here; models are in `NmVerif/Index/*.lean`, specs + helper lemmas in
@@ -259,5 +260,120 @@ theorem repeat_negative_axis_counterexample :
 example : replaceExtent [2, 3, 4] 1 6 = [2, 6, 4] := by decide
 example : repeatSrc [1, 2, 0, 3] 0 = [0, 1, 1, 3, 3, 3] := by decide
 example : (repeatListView [2, 3] [1, 2, 0] 1).map (fun v => (v.dst, v.map [1, 2])) = some ([2, 3], some [1, 1]) := by decide
+
+/-! ### concatenate (two operands; domain of the theorems: axis ≥ 0 or None; the unchanged code ignores a negative
+    axis — `concatenate_negative_axis_counterexample`, known finding concatenate.negative-axis) -/
+
+/-- compatible operands: `shape_concatenate` succeeds with NumPy's shape (extent `a[k] + b[k]` on the axis) -/
+theorem concatenate_shape (a b : Shape) (k : Nat) (h : ConcatCompatible a b k) :
+    ∃ v x y, concatenateView a b (some (k : Int)) = some v ∧ a[k]? = some x ∧ b[k]? = some y ∧
+      (shapeConcatenate a b (k : Int)).1 = true ∧ v.srcA = a ∧ v.srcB = b ∧ v.dst = replaceExtent a k (x + y) := by
+  obtain ⟨x, y, hx, hy, hs⟩ := shapeConcatenate_eq_spec a b k h
+  exact ⟨_, x, y, rfl, hx, hy, by rw [hs], rfl, rfl, by simp [hs]⟩
+
+/-- `out[d] = a[d]` when `d[k] < a[k]`, else `b[d with d[k] - a[k]]` -/
+theorem concatenate_elem (a b : Shape) (k : Nat) (h : ConcatCompatible a b k) (v : IxView2)
+    (hv : concatenateView a b (some (k : Int)) = some v) (d : Idx) (hd : InShape d v.dst) :
+    ∃ x aa, d[k]? = some x ∧ a[k]? = some aa ∧
+      v.map d = if x < aa then some (false, d) else some (true, d.set k (x - aa)) := by
+  obtain ⟨aa, ba, ha, hb, hs⟩ := shapeConcatenate_eq_spec a b k h
+  simp only [concatenateView, Option.some.injEq] at hv
+  subst hv
+  simp only [hs] at hd
+  obtain ⟨x, hx, hxm, hd'⟩ := coord_of_inShape h.2.1 hd
+  have hl := hd'.length_eq
+  simp at hl
+  refine ⟨x, aa, hx, ha, ?_⟩
+  simp only
+  rw [indexConcatenate_eq a b d k x aa ba hl (by rw [hl]; exact h.1) ha hb hx]
+  by_cases h1 : x < aa
+  · simp [h1]
+  · have h2 : x < ba + aa := by omega
+    simp [h1, h2]
+
+/-- both operands are only read inside their shapes -/
+theorem concatenate_inBounds (a b : Shape) (k : Nat) (h : ConcatCompatible a b k) (v : IxView2)
+    (hv : concatenateView a b (some (k : Int)) = some v) : v.InBounds := by
+  intro d hd fl i hi
+  obtain ⟨x, aa, hx, ha, hm⟩ := concatenate_elem a b k h v hv d hd
+  obtain ⟨aa', ba, ha', hb, hs⟩ := shapeConcatenate_eq_spec a b k h
+  have : aa' = aa := by rw [ha] at ha'; simpa using ha'.symm
+  subst this
+  simp only [concatenateView, Option.some.injEq] at hv
+  subst hv
+  simp only [hs] at hd
+  obtain ⟨x', hx', hxm, hd'⟩ := coord_of_inShape h.2.1 hd
+  have : x' = x := by rw [hx] at hx'; simpa using hx'.symm
+  subst this
+  obtain ⟨hl, hk, hc⟩ := h
+  have hak : a[k] = aa' := by simpa [hk] using ha
+  have hbk : b[k] = ba := by simpa [show k < b.length by omega] using hb
+  rw [hm] at hi
+  by_cases h1 : x' < aa'
+  · simp only [h1, if_true, Option.some.injEq, Prod.mk.injEq] at hi
+    obtain ⟨rfl, rfl⟩ := hi
+    simp only [Bool.false_eq_true, if_false]
+    have := inShape_set_of_set (x := x') hd' hk (by omega)
+    have e : d.set k x' = d := by
+      obtain ⟨hlt, hval⟩ := List.getElem?_eq_some_iff.1 hx
+      subst hval
+      exact List.set_getElem_self hlt
+    rwa [e] at this
+  · simp only [h1, if_false, Option.some.injEq, Prod.mk.injEq] at hi
+    obtain ⟨rfl, rfl⟩ := hi
+    simp only [if_true]
+    -- b = a.set k b[k]
+    have hb_eq : b = a.set k ba := by
+      apply List.ext_getElem?; intro j
+      by_cases hj : k = j
+      · subst hj; simp [List.getElem?_set, hk, hb]
+      · simp [List.getElem?_set, hj, (hc j (Ne.symm hj)).symm]
+    have hd'' : InShape d (b.set k (aa' + ba)) := by rw [hb_eq]; simpa using hd'
+    exact inShape_set_of_set hd'' (by omega) (by omega)
+
+/-- axis None: shape `[size a + size b]` -/
+theorem concatenateNone_shape (a b : Shape) :
+    ∃ v, concatenateView a b none = some v ∧ v.srcA = a ∧ v.srcB = b ∧ v.dst = [prod a + prod b] :=
+  ⟨_, rfl, rfl, rfl, rfl⟩
+
+/-- axis None: the flattened left operand followed by the flattened right operand -/
+theorem concatenateNone_elem (a b : Shape) (v : IxView2) (hv : concatenateView a b none = some v) (x : Nat)
+    (hx : x < prod a + prod b) :
+    v.map [x] = if x < prod a then some (false, ndindex a x) else some (true, ndindex b (x - prod a)) := by
+  simp only [concatenateView, Option.some.injEq] at hv
+  subst hv
+  by_cases h1 : x < prod a
+  · simp [indexConcatenateNone, h1, ndindex]
+  · simp [indexConcatenateNone, h1, hx, ndindex]
+
+theorem concatenateNone_inBounds (a b : Shape) (ha : Pos a) (hb : Pos b) (v : IxView2)
+    (hv : concatenateView a b none = some v) : v.InBounds := by
+  intro d hd fl i hi
+  have hv' := hv
+  simp only [concatenateView, Option.some.injEq] at hv'
+  subst hv'
+  cases d with
+  | nil => simp [shapeConcatenateNone, InShape] at hd
+  | cons x xs =>
+    cases xs with
+    | cons _ _ => simp [shapeConcatenateNone, InShape] at hd
+    | nil =>
+      have hx : x < prod a + prod b := by simpa [shapeConcatenateNone, InShape] using hd
+      rw [concatenateNone_elem a b _ hv x hx] at hi
+      by_cases h1 : x < prod a
+      · simp only [h1, if_true, Option.some.injEq, Prod.mk.injEq] at hi
+        obtain ⟨rfl, rfl⟩ := hi
+        exact indices_inShape ha _
+      · simp only [h1, if_false, Option.some.injEq, Prod.mk.injEq] at hi
+        obtain ⟨rfl, rfl⟩ := hi
+        exact indices_inShape hb _
+
+/-- the unchanged `shape_concatenate` ignores a negative axis: `concatenate([x],[y],axis=-1)` keeps shape `[1]`, NumPy gives `[2]` -/
+theorem concatenate_negative_axis_counterexample :
+    (concatenateView [1] [1] (some (-1))).map (·.dst) ≠ (concatenateView [1] [1] (some 0)).map (·.dst) := by decide
+
+example : ConcatCompatible [2, 3] [2, 1] 1 := ⟨rfl, by decide, by intro j hj; cases j with | zero => rfl | succ j => cases j with | zero => exact absurd rfl hj | succ j => rfl⟩
+example : (concatenateView [2, 3] [2, 1] (some 1)).map (fun v => (v.dst, v.map [1, 2], v.map [1, 3])) =
+    some ([2, 4], some (false, [1, 2]), some (true, [1, 0])) := by decide
 
 end NmVerif.Props.C04
